@@ -702,6 +702,7 @@ class FindTree(Bounded):
         ['a/x.c', 'a/y.h', 'a/sub/z.c', 'b.c', 'd/e/f.c', 'd/.h'],
         ['src/a.c', 'src/gen/out/b.c', 'src/gen/c.txt', 'src/x y.c', 'inc/a.h'],
         ['a/a/a.c', 'a/b/a.c', 'b/a/a.c', 'a.c'],
+        ['src/a.c', 'src.old/b.c', 'src-x/e.c', 'src/sub/c.h', 'src/sub/deep/d.h'],
     ]
     PATTERNS = ['*.c', '**/*.c', 'a/*', 'a/**', '**/', 'src/**/*.c', '**/a/*.c', '*/', 'src/gen/out/**/', 'd/**/*', '**/?.c']
     EXCLUDES = [None, ['*.h'], ['sub/'], ['gen/', 'a.c'], ['a/']]
@@ -714,6 +715,13 @@ class FindTree(Bounded):
         for ti in range(len(self.TREES)):
             yield {'tree': ti, 'pattern': ['src/*.c', 'src/gen/out/**/'], 'exclude': None}
             yield {'tree': ti, 'pattern': ['a/*.c', 'd/**/*.c'], 'exclude': ['e/']}
+        # several patterns whose literal prefixes are a directory, a sibling that sorts between it and its child
+        # (`src.old`, `src-x` < `src/sub`), and that child: every entry once
+        yield {'tree': 3, 'pattern': ['src/*.c', 'src.old/*.c', 'src/sub/**/*.h'], 'exclude': None}
+        yield {'tree': 3, 'pattern': ['src/**/*.h', 'src-x/*.c', 'src/sub/deep/*.h'], 'exclude': None}
+        # a pattern whose literal prefix is a symbolic link to a directory is searched through the link
+        yield {'tree': 0, 'pattern': 'lnk/*.c', 'exclude': None, 'symlink': ['lnk', 'a'], 'expect': ['lnk/x.c']}
+        yield {'tree': 0, 'pattern': 'lnk/**/*.c', 'exclude': None, 'symlink': ['lnk', 'a'], 'expect': ['lnk/sub/z.c', 'lnk/x.c']}
 
     def native_check(self, case, raw):
         import os, tempfile
@@ -736,9 +744,11 @@ class FindTree(Bounded):
                 while k < len(bits) and not any(ch in bits[k] for ch in '*?['):
                     k += 1
                 return bits[:k]
+            if raw.get('symlink'):
+                os.symlink(raw['symlink'][1], os.path.join(tmp, raw['symlink'][0]))
             for pat in pats:
                 b = '/'.join(base_of(pat))
-                if b and b not in dirs:
+                if b and b not in dirs and not raw.get('symlink'):
                     return None         # the property only speaks about patterns whose literal prefix exists
 
             class Env:
@@ -748,6 +758,10 @@ class FindTree(Bounded):
             except Exception as e:      # noqa
                 return self.fail(case, raw, 'find_completes', error=repr(e))
             got_set = {(p.suffix, p.directory) for p in got}
+            if raw.get('expect') is not None:
+                if sorted(s_ for s_, d_ in got_set) != sorted(raw['expect']) or len(got) != len(got_set):
+                    return self.fail(case, raw, 'result_is_exactly_the_selected_entries', got=sorted(got_set), expected=raw['expect'])
+                return True
             for p in got:
                 full = os.path.join(tmp, p.suffix)
                 if not os.path.exists(full) or os.path.isdir(full) != p.directory:
